@@ -106,6 +106,7 @@ func cmdVerify(args []string) int {
 	keep := fs.String("keep", "", "keep SMT files in this directory")
 	evid := fs.String("evidence", "", "write evidence JSON here")
 	replayDir := fs.String("replays", "", "directory for replay files")
+	noCone := fs.Bool("nocone", false, "do not verify the callees the property's functions rely on")
 	knownPath := fs.String("known", "/verif/known_findings.txt", "known findings file")
 	level := fs.String("level", "proof", "evidence level")
 	fs.Parse(args)
@@ -174,6 +175,24 @@ func cmdVerify(args []string) int {
 			all = append(all, o)
 		}
 	}
+	// the callees whose contracts those proofs rest on are verified in the same run (everything they export)
+	coneN := 0
+	if *prop != "" && *prop != "C09" && *fn == "" && !*noCone {
+		for _, k := range w.cone(keys) {
+			rep := eng.verifyFunc(w.Funcs[k])
+			rep.Key = k
+			reports = append(reports, rep)
+			coneN++
+			for _, o := range rep.Obls {
+				if strings.Contains(o.Name, "/guarantees") || strings.HasPrefix(o.Kind, "frame") || o.Kind == "confinement" {
+					continue // not handed to callers
+				}
+				o.Cone = true
+				all = append(all, o)
+			}
+		}
+	}
+	_ = coneN
 	if (*prop == "C17" || *prop == "") && (*fn == "" || strings.Contains(*fn, "helper.Bst.searchNode")) {
 		if fi := w.Funcs["helper.Bst.searchNode"]; fi != nil {
 			eng.fi = fi
@@ -182,6 +201,23 @@ func cmdVerify(args []string) int {
 		rep := eng.bstCompareObligations()
 		reports = append(reports, rep)
 		all = append(all, rep.Obls...)
+	}
+	// relational clauses (self-composition): one report per function and relation name
+	for _, k := range keys {
+		fi := w.Funcs[k]
+		for _, label := range relLabels(fi.Contract) {
+			rep := eng.verifyRel(fi, label)
+			reports = append(reports, rep)
+			for _, o := range rep.Obls {
+				if *prop != "" && len(o.Tags) > 0 && !hasTag(o.Tags, *prop) {
+					continue
+				}
+				if *prop == "C09" {
+					continue
+				}
+				all = append(all, o)
+			}
+		}
 	}
 	// behavioural subtyping: every implementation refines the contracts of the interfaces it implements
 	for _, rp := range w.refinePairs() {
@@ -350,7 +386,7 @@ func cmdVerify(args []string) int {
 	for _, o := range failed {
 		isKnown := false
 		for _, k := range known {
-			if k.Obl == o.Name && (k.Prop == pid || pid == "ALL") {
+			if k.Obl == o.Name && (k.Prop == pid || pid == "ALL" || o.Cone) {
 				isKnown = true
 				if !knownHit[k.Obl] {
 					knownHit[k.Obl] = true
